@@ -589,8 +589,9 @@ class EndpointResponseHandlerGenerator:
                 writer.write_line("yield chunk")
                 writer.dedent()
                 writer.write_line("return  # Explicit return for async generator")
-            elif getattr(strategy.response_ir, "stream_format", None) == "ndjson":
-                # Newline-delimited JSON: one JSON document per line, each decoded as the declared item type
+            elif getattr(strategy.response_ir, "stream_format", None) in ("ndjson", "json-seq"):
+                # Newline-delimited JSON / JSON text sequences (RFC 7464: each record is RS + JSON + LF; the line
+                # reader splits at RS as well): one JSON document per line, each decoded as the declared item type
                 item_type = strategy.return_type[len("AsyncIterator[") : -1]
                 context.add_import(f"{context.core_package_name}.streaming_helpers", "iter_ndjson")
                 writer.write_line("async for item in iter_ndjson(response):")
